@@ -35,7 +35,8 @@ ASSUMPTIONS = [
     "'a run starts' is read as: a new non-empty Run Id is visible at the end of a tick; 'zero' is checked at the end of "
     "that tick",
     "'during the run': a run that is active when a tick begins (Run Id shown, System State not Stopped) only ends in "
-    "that tick if the engine announces the run end (on_stop, emitted by Stop and Restart). Without a run end the whole "
+    "that tick if the engine announces the run end (on_stop, emitted by Stop and Restart) or the Restart command opens "
+    "the next run in it (a Restart executed; whether it announced the run end is not a clock matter). Otherwise the whole "
     "tick belongs to that run and Process/Run Time must not decrease over it - also when the tick ends with another Run "
     "Id or announced a run start: a Run Id change alone does not open a new run for the 'never decrease' clause",
     "commands scheduled through Engine.schedule_execution stand for commands issued by the method: they are applied "
@@ -208,6 +209,11 @@ class Monitor:
             res.count("run_starts_judged")
             if not r0 or s0 == "Stopped" or self.stop_events:
                 res.count("run_boundaries_with_run_end_seen")
+            elif any(o == "RestartEngineCommand" for o in self.start_origins):
+                # the Restart command opened the run without announcing the end of the one before (seen on the
+                # unchanged tree when a Restart command instance left over from an earlier cycle is resumed): a
+                # Restart executed, so this is a run boundary for the clock clauses; run-end events are C06/C10 matter
+                res.count("run_boundaries_by_restart_without_announced_run_end")
             self.interesting = True
             via_restart = bool(self.start_origins) and all(o == "RestartEngineCommand" for o in self.start_origins)
             if via_restart:
@@ -221,9 +227,11 @@ class Monitor:
                 self.V(mech, f"tick {k}: new Run Id appears but Process Time={pt1!r} Run Time={rt1!r} (state before tick "
                              f"{s0}, after {s1}; run opened by {self.start_origins})")
         # (b) never decrease within a run. The tick lies within one run if the Run Id is the same at both ends, or if a
-        # run was active when it began and no run end was announced in it (then a changed Run Id / an announced run
-        # start is not a run boundary: the run that was active has not ended)
-        no_run_end = bool(r0) and s0 != "Stopped" and not self.stop_events
+        # run was active when it began and neither a run end was announced in it nor the Restart command opened a run
+        # in it (then a changed Run Id / an announced run start is not a run boundary: the run that was active has not
+        # ended, no Stop or Restart executed)
+        no_run_end = (bool(r0) and s0 != "Stopped" and not self.stop_events
+                      and not any(o == "RestartEngineCommand" for o in self.start_origins))
         if r0 and (r1 == r0 or no_run_end):
             res.count("same_run_monotone_checks")
             if sched and no_run_end:
